@@ -124,7 +124,10 @@ int main(int argc, char** argv)
         json ev = {{"e", "RD"}, {"file", name}, {"size", bytes.size()}};
         if (mode == "safety") {
             // C03: both entry points, outcome class and time only
-            for (const char* entry : {"reader+accessors", "renderers", "blocks kept by move"}) {
+            // (the last entry: the same reader run on a forward-only stream - a pipe, a socket, a decompression filter: its size
+            // cannot be asked for, it cannot seek)
+            for (const char* entry : {"reader+accessors", "renderers", "blocks kept by move", "reader+accessors (forward-only stream)"}) {
+                vr::fwd_forced() = std::string(entry) == "reader+accessors (forward-only stream)";
                 vh::set_context(json{{"entry", entry}, {"input", name}});
                 long t0 = vh::cpu_ms();
                 json r;
@@ -142,6 +145,7 @@ int main(int argc, char** argv)
                 std::string fin = r["fin"];
                 vh::trace().emit({{"e", "X"}, {"entry", entry}, {"input", name}, {"outcome", fin == "eof" ? "ok" : fin},
                                   {"ms", ms}, {"size", bytes.size()}});
+                vr::fwd_forced() = false;
             }
             continue;
         }
